@@ -410,6 +410,10 @@ def run(tier: str, seed: int) -> Report:
     nstall = 700 if not thorough else 5000
     pos_step = req_step(good[rd], pick(rd, "Pos")[1], label="Pos")
     add_file([{"hist": [pos_step] * nstall, "stall": True}], "writer-stalled")
+    # ... and, once the writer runs again, sqlite reports "database is locked" for a few of its inserts
+    add_file([{"hist": [pos_step] * 40, "stall": "busy"}], "writer-stalled")
+    add_file([{"hist": [pos_step, req_step(good[rd], [["T"]], label="Timeout")] * 12, "stall": "busy"}],
+             "writer-stalled")
     add_file([{"hist": [pos_step, req_step(good[rd], [["T"]], label="Timeout")] * (nstall // 4), "stall": True}],
              "writer-stalled")
     probe = run_files([[{"hist": h}] for h in abort_hists])
